@@ -596,6 +596,62 @@ func cdxInputs(c *engine.Ctx) {
 	cdxForests(c, "cdx-generated", []string{"", "a", "b"}, maxN)
 	// references that coincide under trimming or case folding are different references
 	cdxForests(c, "cdx-near-references", []string{"a", "a ", " a", "A"}, maxN-1)
+	cdxReferenceCompositions(c)
+}
+
+// cdxReferenceCompositions: component references built from the structural tokens of the library's own sources (the
+// separators, prefixes and words it glues into keys or searches identifiers for). Each reference is carried by a
+// component that has a nested component of its own, inside the subtree of the first top-level component (the fragment
+// the parser merges by a different route than the later ones) and again as a later top-level component.
+func cdxReferenceCompositions(c *engine.Ctx) {
+	c.Group("cdx-reference-compositions")
+	n := 2
+	if c.Thorough() {
+		n = 3
+	}
+	// references in the library's own generated-identifier namespace are left out: the invariants treat them as generated
+	ids := gen.TokenCompositions(n, func(s string) bool {
+		return strings.TrimSpace(s) != "" && s != "root-0" && !strings.HasPrefix(s, "protobom-")
+	})
+	const per = 60
+	c.Bound("cdx-reference-compositions", fmt.Sprintf("%d references = every concatenation of <=%d of the %d structural tokens of the library's sources; %d per document, each on a component with a nested component, under the first top-level component and as later top-level components x {1.4, 1.5}", len(ids), n, len(gen.StructuralTokens()), per))
+	if gen.LiteralsUnavailable {
+		c.Cap("source-vocabulary-unavailable")
+		return
+	}
+	for lo := 0; lo < len(ids); lo += per {
+		hi := lo + per
+		if hi > len(ids) {
+			hi = len(ids)
+		}
+		batch := ids[lo:hi]
+		for _, ver := range []string{"1.4", "1.5"} {
+			for _, nested := range []bool{true, false} {
+				ver, nested, lo := ver, nested, lo
+				c.Case(func() any {
+					return map[string]any{"version": ver, "references": batch, "inside-the-first-top-level-component": nested}
+				}, func(t *engine.T) *engine.Violation {
+					comps := []comp{{Ref: "root-0", Parent: -1}}
+					for _, id := range batch {
+						par := -1
+						if nested {
+							par = 0
+						}
+						comps = append(comps, comp{Ref: id, Parent: par})
+						comps = append(comps, comp{Ref: id + "-part", Parent: len(comps) - 1})
+					}
+					root, idc := cdxDoc(ver, 0, comps)
+					ls := layoutsOf(root, []string{"components", "[0]"}, false)[:1]
+					f := map[string]formats.Format{"1.4": formats.CDX14JSON, "1.5": formats.CDX15JSON}[ver]
+					if v := judge(t, ls, f, idc, true, false, len(idc)); v != nil {
+						return v
+					}
+					t.State(fmt.Sprint("refc", ver, nested, lo))
+					return nil
+				})
+			}
+		}
+	}
 }
 
 func cdxForests(c *engine.Ctx, group string, refs []string, maxN int) {
